@@ -268,12 +268,13 @@ func (p *ringPair) gid(r *ring.Ring) int {
 func driveRings(plan []M, out *Out, _ []string) {
 	var p *ringPair
 	skipToReset := false
+	hangs := 0
 	for _, c := range plan {
 		op, r, q, k := str(c, "op"), num(c, "r"), num(c, "q"), num(c, "k")
 		if skipToReset && op != "Reset" {
 			continue
 		}
-		skipToReset = false
+		skipToReset = hangs >= 3 // every hang leaves a goroutine spinning for ever: after three the remaining plans are not run
 		ev := M{"op": op, "r": r, "q": q, "k": k, "fret": 0, "gret": 0}
 		if op == "Reset" {
 			p = &ringPair{}
@@ -346,6 +347,7 @@ func driveRings(plan []M, out *Out, _ []string) {
 					})
 				})
 				if hung {
+					hangs++
 					panic("hang: Do did not return within 3s")
 				}
 			}
@@ -437,6 +439,7 @@ func driveRings(plan []M, out *Out, _ []string) {
 		})
 		if hung {
 			// a corrupted ring can make Len/Do loop for ever: recorded, and the rest of this plan is skipped
+			hangs++
 			ev["fpanic"] = "hang: observation did not return within 3s"
 			ev["f"], ev["g"] = M{"hang": true}, M{"hang": false}
 			out.Emit(ev)
